@@ -494,7 +494,8 @@ def run(ctx):
 
     # ---------------------------------------------------------------- 1. sequential lock-step histories
     nseq = 2000 if thorough else 220
-    seq = hmemo(["-mode", "seq", "-n", str(nseq), "-seed", str(ctx.seed)])
+    # -big: one sized history at the end (every streaming lookup has 1025..1500+ results and is asked twice)
+    seq = hmemo(["-mode", "seq", "-n", str(nseq), "-seed", str(ctx.seed), "-big"])
     nflt = 600 if thorough else 80
     flt = hmemo(["-mode", "seq", "-n", str(nflt), "-seed", str(ctx.seed + 7919), "-faults"])
     ncan = 400 if thorough else 45
@@ -718,7 +719,7 @@ def run(ctx):
                        "was served from the cache; interleavings: distinct observable outcomes per scenario (every complete "
                        "schedule is executed and compared, %d in total)" % nsched)
     ctx.cov["samples"] = [{"history": allseq[0]["id"], "ops": [{k: o.get(k) for k in ("h", "k", "q", "memo")} for o in allseq[0]["ops"][:4]]}]
-    ctx.cov["distribution"] = {"histories": len(seq), "fault_histories": len(flt), "cancel_histories": len(can),
+    ctx.cov["distribution"] = {"histories": len(seq), "sized_history_results_per_lookup": max(c.get("big", 0) for c in seq), "fault_histories": len(flt), "cancel_histories": len(can),
                                "cancelled_reads": ncancel, "cancelled_reads_leaving_inner_lookup_blocked": nleak, "reads": nreads, "cache_hits": nhits,
                                "error_answers": nerr, "empty_answers": nempty, "reads_differing_from_plain_store": ndiff,
                                "op_mix": opmix, "interleaving_scenarios": outcomes, "stale_reads_by_class": stale_by_class}
